@@ -16,7 +16,9 @@ RULE = ("simple loop-free graphs (arbitrary vertex names / insertion order) x ma
         "shuffle of the full clique list; all graphs on <= 4 vertices and (thorough: all / quick: a seeded third of) "
         "the 1024 labelled graphs on 5 vertices, each with identity, reversed, random full permutations, random "
         "per-size-class permutations and (when <= 720) ALL permutations of the 2-/3-clique classes or of the whole "
-        "list; random graphs to 10 vertices with planted / overlapping cliques. Compared with the model: the label "
+        "list; random graphs to 10 vertices with planted / overlapping cliques (max_size to 7; a fifth of them after "
+        "an earlier MPCC call on the same graph object or on another graph); a small stream with max_size 1 / "
+        "negative (outside the property: correspondence only). Compared with the model: the label "
         "(size, member list in order, id) of every edge, node and edge sets before/after, `ret is G`, one shuffle "
         "call on the full clique list. non-trivial = some edge labelled with a clique of >= 3 vertices; distinct by "
         "(graph, max_size, post-shuffle clique list)")
@@ -101,8 +103,12 @@ class SchedScript(oracles.Script):
 
 
 # ------------------------------------------------------------------ cases
-def _case(nodes, edges, ms, sched):
-    return {"nodes": list(nodes), "edges": [list(e) for e in edges], "ms": ms, "sched": sched}
+def _case(nodes, edges, ms, sched, prior=None):
+    c = {"nodes": list(nodes), "edges": [list(e) for e in edges], "ms": ms, "sched": sched}
+    if prior:
+        # an earlier MPCC call in the same process: on the same graph object (no "nodes" key) or on another graph
+        c["prior"] = prior
+    return c
 
 
 def corpus():
@@ -124,6 +130,11 @@ def corpus():
         out.append(_case([0, 1, 2, 3], k4, ms, ["rank", 987654321]))
         out.append(_case([4, 0, 3, 1, 2], k5, ms, ["classrank", [[2, 1234567], [3, 4321], [4, 3]]]))
         out.append(_case([0, 1, 2, 3, 4], bow, ms, ["rev"]))
+    # a second call on an already covered graph must relabel everything (stale labels from the first call)
+    out.append(_case([0, 1, 2, 3], diamond, 2, ["id"], {"ms": 0, "sched": ["rev"]}))
+    out.append(_case([0, 1, 2, 3], k4, 3, ["rank", 5], {"ms": 0, "sched": ["id"]}))
+    out.append(_case([0, 1, 2, 3], k4, 0, ["rank", 5], {"ms": 2, "sched": ["id"]}))
+    out.append(_case([0, 1, 2, 3], diamond, 0, ["id"], {"nodes": [0, 1, 2, 3], "edges": k4, "ms": 0, "sched": ["id"]}))
     # two K4 sharing an edge plus a pendant triangle, limit below / at / above the clique number
     g2 = [list(e) for e in itertools.combinations([0, 1, 2, 3], 2)] + \
          [list(e) for e in itertools.combinations([2, 3, 4, 5], 2) if list(e) != [2, 3]] + [[5, 6], [5, 7], [6, 7]]
@@ -251,7 +262,7 @@ def generate(rng, tier):
     nrand = 500 if quick else 6000
     for _ in range(nrand):
         nodes, edges = _random_graph(rng)
-        ms = rng.choice([0, 0, 2, 3, 3, 4, 5])
+        ms = rng.choice([0, 0, 0, 2, 2, 3, 3, 4, 5, 6, 7])
         counts = _clique_count_by_size(nodes, edges)
         total = sum(counts.values())
         k = rng.random()
@@ -263,7 +274,14 @@ def generate(rng, tier):
             s = ["rank", rng.randrange(math.factorial(min(total, 60)))]
         else:
             s = ["classrank", [[kk, rng.randrange(math.factorial(min(c, 30)))] for kk, c in sorted(counts.items())]]
-        yield _case(nodes, edges, ms, s)
+        prior = None
+        k = rng.random()
+        if k < 0.15:
+            prior = {"ms": rng.choice([0, 0, 2, 3, 4]), "sched": ["rank", rng.randrange(10**12)]}
+        elif k < 0.2:
+            n2, e2 = _random_graph(rng)
+            prior = {"nodes": n2, "edges": e2, "ms": rng.choice([0, 2, 3]), "sched": ["rank", rng.randrange(10**12)]}
+        yield _case(nodes, edges, ms, s, prior)
     # 3. outside the property's domain (correspondence only): max_size = 1 labels no edge, a negative
     #    max_size means unbounded (`max_size > 0` is false)
     for _ in range(40 if quick else 400):
@@ -295,6 +313,16 @@ def impl(case):
     G.add_edges_from([tuple(e) for e in case["edges"]])
     before_nodes = list(G.nodes)
     before_edges = [[u, v] for u, v in G.edges]
+    prior = case.get("prior")
+    if prior:
+        H = G
+        if "nodes" in prior:
+            H = nx.Graph()
+            H.add_nodes_from(prior["nodes"])
+            H.add_edges_from([tuple(e) for e in prior["edges"]])
+        sp = SchedScript([("shuffle", prior["sched"])])
+        with oracles.scripted(sp, extra_modules=[(M, "shuffle")]):
+            M.MPCC(H, prior["ms"])
     s = SchedScript([("shuffle", case["sched"])])
     with oracles.scripted(s, extra_modules=[(M, "shuffle")]):
         ret = M.MPCC(G, case["ms"])
@@ -451,22 +479,31 @@ def nontrivial_key(case, impl_obs):
 
 def shrink(case):
     nodes, edges, ms, sched = case["nodes"], case["edges"], case["ms"], case["sched"]
+    prior = case.get("prior")
+    if prior:
+        yield _case(nodes, edges, ms, sched)
+        if "nodes" in prior:
+            yield _case(nodes, edges, ms, sched, {"ms": prior["ms"], "sched": prior["sched"]})
+        if prior["sched"] != ["id"]:
+            yield _case(nodes, edges, ms, sched, dict(prior, sched=["id"]))
     for v in nodes:
-        yield _case([x for x in nodes if x != v], [e for e in edges if v not in e], ms, sched)
+        yield _case([x for x in nodes if x != v], [e for e in edges if v not in e], ms, sched, prior)
     for i in range(len(edges)):
-        yield _case(nodes, edges[:i] + edges[i + 1:], ms, sched)
+        yield _case(nodes, edges[:i] + edges[i + 1:], ms, sched, prior)
     if sched != ["id"]:
-        yield _case(nodes, edges, ms, ["id"])
+        yield _case(nodes, edges, ms, ["id"], prior)
         if sched != ["rev"]:
-            yield _case(nodes, edges, ms, ["rev"])
+            yield _case(nodes, edges, ms, ["rev"], prior)
     if ms != 0:
-        yield _case(nodes, edges, 0, sched)
+        yield _case(nodes, edges, 0, sched, prior)
     if nodes != sorted(nodes):
-        yield _case(sorted(nodes), edges, ms, sched)
+        yield _case(sorted(nodes), edges, ms, sched, prior)
 
 
 def describe(case, impl_obs):
     d = {"nodes": case["nodes"], "edges": case["edges"], "max_size": case["ms"], "schedule": case["sched"]}
+    if case.get("prior"):
+        d["prior_call"] = case["prior"]
     if isinstance(impl_obs, dict):
         d["labels"] = [[u, v, lab] for u, v, lab in impl_obs["rows"]][:12]
     else:
@@ -483,6 +520,9 @@ def histogram(cases):
         h[k] = h.get(k, 0) + 1
         k = f"sched={c['sched'][0]}"
         h[k] = h.get(k, 0) + 1
+        if c.get("prior"):
+            k = "prior_call_other_graph" if "nodes" in c["prior"] else "prior_call_same_graph"
+            h[k] = h.get(k, 0) + 1
     return h
 
 
